@@ -62,11 +62,22 @@ theorem score_zero_iff_stationary (φ : ℝ → Option ℝ) (w grad : ℝ) (d : 
 /-- a configured positivity constraint that is violated gives an infinite score -/
 theorem infeasible_is_inf (p : SepPen ℝ) (wt w grad : ℝ) (hp : p.positive = true) (hw : w < 0) :
     p.sd1 wt w grad = .inf := by
-  sorry
+  have hne : ¬ w = 0 := hw.ne
+  have hnp : ¬ 0 < w := not_lt.2 hw.le
+  cases p <;> simp only [SepPen.positive] at hp <;> cases hp
+  all_goals simp [SepPen.sd1, eqb_iff, hw, hne, hnp]
 
 /-- features flagged as unpenalised contribute nothing to the value -/
 theorem unpenalized_contributes_nothing (p : SepPen ℝ) (wt w : ℝ) (h : p.isPen1 wt = false) :
     p.pen1 wt w = .fin 0 := by
-  sorry
+  cases p <;> simp only [SepPen.isPen1] at h <;> first | cases h | skip
+  have hwt : wt = 0 := by
+    by_contra hne
+    rw [(nz_iff wt).2 hne] at h
+    cases h
+  subst hwt
+  simp only [SepPen.pen1]
+  congr 1
+  ring
 
 end Skglm.C08
